@@ -4,6 +4,7 @@ from __future__ import annotations
 import itertools
 import random
 
+from ..model import params
 from ..model.gf import Fld, find_irreducible, is_prime
 from ..monitors import field as fmon
 from ..monitors.install import import_all
@@ -28,7 +29,7 @@ def shards(tier):
 
 
 def required_classes(tier):
-    out = ["typed-variants", "soak:distinct-inverses", "derived-configurations", "hash-colliding-operands", "interleaved-configurations", "W4:GF(p)", "W4:GF(p^2)", "W4:GF(2^12)", "int-operand", "div-by-zero", "pow:>=750bit", "laws"]
+    out = ["near-power-of-two-prime", "typed-variants", "soak:distinct-inverses", "derived-configurations", "hash-colliding-operands", "interleaved-configurations", "W4:GF(p)", "W4:GF(p^2)", "W4:GF(2^12)", "int-operand", "div-by-zero", "pow:>=750bit", "laws"]
     for impl in ("ref", "opt"):
         for d in (1, 2, 12):
             out.append("real:%s:deg%d" % (impl, d))
@@ -214,6 +215,7 @@ def run(rec):
     hash_colliding_operands(rec, rng, quick)
     derived_configurations(rec, rng, quick)
     typed_variants(rec, rng, quick)
+    near_power_of_two_primes(rec, rng, quick)
     if rec.shard == 5 or not quick:
         from .common import soak_size, soak_then_reprobe
         import py_ecc.fields as pf
@@ -269,6 +271,29 @@ def run(rec):
                     rec.count_distinct(n)
                     rec.exhaustive_space("opt FQ12 over GF(3), modulus %r: inverse of every non-zero element (inv monitor)" % (mc,), n)
                 exercise(rec, (impl, "GF(%d^12)#%d" % (p, mi), 12), cls, F, rng, quick, heavy=True)
+
+
+def near_power_of_two_primes(rec, rng, quick):
+    """Extension fields over primes just below a power of two (31, 61, 127, 8191, 2^61-1, 2^255-19, the secp256k1 prime), on
+    elements whose coefficients are all p-1 or all in the top of the range: where packed / lazy-reduction arithmetic runs out
+    of guard bits first."""
+    m12 = random.Random(31337)
+    primes = [31, 61, 127, 8191, (1 << 61) - 1, (1 << 255) - 19, params.SECP_P]
+    for p in (primes if not quick else [primes[(rec.shard + k) % len(primes)] for k in range(3)]):
+        for deg in (12, 2):
+            mc = find_irreducible(p, deg, m12, sparse=True)
+            for impl in ("opt", "ref"):
+                cls, F = G.adhoc_class(impl, p, mc, tag="_np2")
+                top = [tuple(p - 1 for _ in range(deg)), tuple(p - 1 - rng.randrange(0, max(2, p // 16)) for _ in range(deg)),
+                       tuple(p - 2 for _ in range(deg)), tuple((p - 1) if i % 2 else (p - 1 - rng.randrange(0, max(2, p // 8))) for i in range(deg))]
+                xs = [G.make(cls, v) for v in top]
+                rec.case("near-power-of-two-prime", None, nontrivial=False)
+                for a in xs:
+                    for b in xs[:2]:
+                        call(lambda: a * b)
+                    call(lambda: a * a)
+                    call(lambda: (a * a) / a)
+                    call(lambda: a ** 3)
 
 
 def typed_variants(rec, rng, quick):
